@@ -42,6 +42,8 @@ type bodyRun struct {
 	writeRanges []writeRange
 }
 
+func mkKS(key, sort string) keySort { return keySort{key: key, sort: sort} }
+
 // writeRange: inside loop li, stores into region ref (heap key) must stay within [lo,hi).
 type writeRange struct {
 	key, ref, lo, hi string
@@ -379,7 +381,41 @@ func (br *bodyRun) havocLoop(li *loopInfo, st *State) {
 		fc.assume(st, app(">=", na, st.alloc))
 		st.alloc = na
 	}
+	allocAtEntry := st.alloc
+	if br.loopAllocates(li) {
+		// st.alloc was already advanced above; the entry value is the one before
+		allocAtEntry = li.entrySt.alloc
+	}
 	for _, k := range keys {
+		if k.freshOnly && !fc.isStableKey(k.key) && strings.HasPrefix(k.sort, "(Array Int ") {
+			// objects that existed at loop entry keep their value
+			fc.keySort[k.key] = k.sort
+			h := fc.heapSym(st, k.key, k.sort)
+			nh := fc.smt.declare("H_"+k.key, k.sort)
+			r := fc.smt.freshName("r")
+			fc.smt.addExtra(nh, fmt.Sprintf("(forall ((%s Int)) (! (=> (<= %s %s) (= (select %s %s) (select %s %s))) :pattern ((select %s %s))))", r, r, allocAtEntry, nh, r, h, r, nh, r))
+			fc.refBound(nh, k.key, k.sort, st.alloc)
+			fc.touched[k.key] = true
+			st.heap[k.key] = nh
+			continue
+		}
+		if len(k.objs) > 0 && !fc.isStableKey(k.key) {
+			fc.keySort[k.key] = k.sort
+			h := fc.heapSym(st, k.key, k.sort)
+			inner := strings.TrimSuffix(strings.TrimPrefix(k.sort, "(Array Int "), ")")
+			seen := map[string]bool{}
+			for _, v := range k.objs {
+				p, ok := fc.val(v).(PtrV)
+				if !ok || seen[p.Ref] {
+					continue
+				}
+				seen[p.Ref] = true
+				h = app("store", h, p.Ref, fc.smt.declare("loopobj", inner))
+			}
+			fc.touched[k.key] = true
+			st.heap[k.key] = fc.smt.defineAlways("H_"+k.key, k.sort, h)
+			continue
+		}
 		if len(k.regions) > 0 && !fc.isStableKey(k.key) {
 			// only the regions of loop-invariant slices are written: forget just those
 			fc.keySort[k.key] = k.sort
@@ -422,6 +458,8 @@ func (br *bodyRun) havocLoop(li *loopInfo, st *State) {
 type keySort struct {
 	key, sort string
 	regions   []ssa.Value // when non-empty: only these slices' regions are written
+	objs      []ssa.Value // when non-empty: only these (local) objects are written
+	freshOnly bool        // written only while initialising objects allocated inside the loop
 }
 
 func (br *bodyRun) loopAllocates(li *loopInfo) bool {
@@ -442,6 +480,13 @@ func (br *bodyRun) modifiedKeys(li *loopInfo) ([]keySort, bool) {
 	set := map[string]string{}
 	regs := map[string][]ssa.Value{}
 	regSort := map[string]string{}
+	objRegs := map[string][]ssa.Value{}
+	fresh := map[string]string{}
+	addFresh := func(space string, root types.Type, t types.Type) {
+		for _, l := range leavesOf(t) {
+			fresh[space+"|"+typeName(root)+l.Suffix] = arrSort(space == "elem", l.Sort)
+		}
+	}
 	all := false
 	outside := func(v ssa.Value) bool {
 		if ins, ok := v.(ssa.Instruction); ok {
@@ -494,9 +539,31 @@ func (br *bodyRun) modifiedKeys(li *loopInfo) ([]keySort, bool) {
 						continue
 					}
 				}
-				if a, ok := x.Addr.(*ssa.Alloc); ok && !a.Heap {
-					if _, isArr := a.Type().(*types.Pointer).Elem().Underlying().(*types.Array); !isArr {
-						addrKeys(x.Addr)
+				// store into a local variable that lives in memory: only that object changes
+				base := x.Addr
+				for {
+					if fa, ok := base.(*ssa.FieldAddr); ok {
+						base = fa.X
+						continue
+					}
+					break
+				}
+				if a, ok := base.(*ssa.Alloc); ok {
+					et := a.Type().(*types.Pointer).Elem()
+					if _, isArr := et.Underlying().(*types.Array); !isArr {
+						space := "cell"
+						if _, isStruct := et.Underlying().(*types.Struct); isStruct {
+							space = "fld"
+						}
+						if !outside(a) {
+							addFresh(space, et, et)
+						} else {
+							for _, l := range leavesOf(et) {
+								k := space + "|" + typeName(et) + l.Suffix
+								objRegs[k] = append(objRegs[k], a)
+								regSort[k] = arrSort(false, l.Sort)
+							}
+						}
 						continue
 					}
 				}
@@ -510,17 +577,17 @@ func (br *bodyRun) modifiedKeys(li *loopInfo) ([]keySort, bool) {
 				// zero-initialisation of a fresh object writes its keys
 				et := x.Type().(*types.Pointer).Elem()
 				if at, ok := et.Underlying().(*types.Array); ok {
-					addType("elem", at.Elem(), "", at.Elem())
+					addFresh("elem", at.Elem(), at.Elem())
 				} else if _, ok := et.Underlying().(*types.Struct); ok {
-					addType("fld", et, "", et)
+					addFresh("fld", et, et)
 				} else {
 					for _, l := range leavesOf(et) {
-						set["cell|"+typeName(et)+l.Suffix] = arrSort(false, l.Sort)
+						fresh["cell|"+typeName(et)+l.Suffix] = arrSort(false, l.Sort)
 					}
 				}
 			case *ssa.MakeSlice:
 				et := x.Type().Underlying().(*types.Slice).Elem()
-				addType("elem", et, "", et)
+				addFresh("elem", et, et)
 			case *ssa.Convert:
 				if _, ok := x.Type().Underlying().(*types.Slice); ok {
 					addType("elem", types.Typ[types.Uint8], "", types.Typ[types.Uint8])
@@ -552,8 +619,40 @@ func (br *bodyRun) modifiedKeys(li *loopInfo) ([]keySort, bool) {
 	}
 	for k, vs := range regs {
 		if _, whole := set[k]; !whole {
+			if _, f := fresh[k]; f {
+				// both region stores and fresh initialisation: fall back to the whole key
+				out = append(out, keySort{key: k, sort: regSort[k]})
+				continue
+			}
 			out = append(out, keySort{key: k, sort: regSort[k], regions: vs})
 		}
+	}
+	for k, vs := range objRegs {
+		_, whole := set[k]
+		_, f := fresh[k]
+		_, r := regs[k]
+		if whole || r {
+			continue
+		}
+		if f {
+			// fresh initialisation and a local object: keep it simple, whole key
+			set[k] = regSort[k]
+			out = append(out, keySort{key: k, sort: regSort[k]})
+			continue
+		}
+		out = append(out, keySort{key: k, sort: regSort[k], objs: vs})
+	}
+	for k, srt := range fresh {
+		if _, whole := set[k]; whole {
+			continue
+		}
+		if _, o := objRegs[k]; o {
+			continue
+		}
+		if _, r := regs[k]; r {
+			continue
+		}
+		out = append(out, keySort{key: k, sort: srt, freshOnly: true})
 	}
 	sort.Slice(out, func(i, j int) bool { return out[i].key < out[j].key })
 	return out, all
@@ -615,7 +714,33 @@ func (br *bodyRun) envAt(b *ssa.BasicBlock, idx int, st *State, phiOv map[*ssa.P
 
 func (br *bodyRun) resolveAt(b *ssa.BasicBlock, idx int, name string, st *State, phiOv map[*ssa.Phi]Val) (TV, bool) {
 	fc := br.fc
-	// "name#k": k-th enclosing binding is not supported; plain names only
+	// "name#k": the loop-carried variable `name` of loop k (its header phi)
+	if i := strings.Index(name, "#"); i > 0 {
+		ord := 0
+		fmt.Sscanf(name[i+1:], "%d", &ord)
+		for h, li := range br.loops {
+			if li.ordinal != ord {
+				continue
+			}
+			for _, ins := range h.Instrs {
+				phi, ok := ins.(*ssa.Phi)
+				if !ok {
+					break
+				}
+				if phi.Comment == name[:i] {
+					if phiOv != nil {
+						if ov, ok := phiOv[phi]; ok {
+							return TV{ov, phi.Type()}, true
+						}
+					}
+					if v, ok := fc.vals[phi]; ok {
+						return TV{v, phi.Type()}, true
+					}
+				}
+			}
+		}
+		return TV{}, false
+	}
 	for blk, i := b, idx; blk != nil; {
 		for j := i - 1; j >= 0; j-- {
 			switch x := blk.Instrs[j].(type) {
